@@ -4,13 +4,13 @@ from rules import misc as M
 
 
 def run(ctx):
-    W.wid1_integer_widths(ctx)
-    W.wid2_dictionary_widths(ctx)
-    M.tbl1_datasection_tags(ctx)
-    M.lit1_null_patterns(ctx)
-    W.flt2_exact_narrowing_test(ctx)
-    M.nul1_null_map_never_ignored(ctx)
-    M.nul2_bitmap_ones_fill_whole_bytes_only(ctx)
+    ctx.run(W.wid1_integer_widths)
+    ctx.run(W.wid2_dictionary_widths)
+    ctx.run(M.tbl1_datasection_tags)
+    ctx.run(M.lit1_null_patterns)
+    ctx.run(W.flt2_exact_narrowing_test)
+    ctx.run(M.nul1_null_map_never_ignored)
+    ctx.run(M.nul2_bitmap_ones_fill_whole_bytes_only)
     return ctx.finish(
         'Syntax-tree rules over the column builders: in every narrow branch the range bound, the '
         'element type and the encoding tag agree (a tag that disagrees with the stored element type '
